@@ -183,6 +183,9 @@ func (da *DistributedAllocator) Allocate(ctx context.Context, subscriberID strin
 	var prefix *net.IPNet
 	var epoch uint64
 
+	// Only an allocation made by this call may be undone when the store write fails
+	existed := da.hasAllocation(subscriberID)
+
 	// Use appropriate allocator based on mode
 	if da.mode == PoolModeLease {
 		// Lease mode: use epoch bitmap allocator
@@ -213,11 +216,14 @@ func (da *DistributedAllocator) Allocate(ctx context.Context, subscriberID strin
 	}
 
 	if err := da.saveAllocation(ctx, alloc); err != nil {
-		// Rollback local allocation
-		if da.mode == PoolModeLease {
-			da.epochAllocator.Release(ctx, subscriberID)
-		} else {
-			da.allocator.Release(subscriberID)
+		// Rollback local allocation (an allocation that existed before this call stays:
+		// the store still records it)
+		if !existed {
+			if da.mode == PoolModeLease {
+				da.epochAllocator.Release(ctx, subscriberID)
+			} else {
+				da.allocator.Release(subscriberID)
+			}
 		}
 		return nil, fmt.Errorf("save allocation: %w", err)
 	}
@@ -232,6 +238,8 @@ func (da *DistributedAllocator) AllocateWithMAC(ctx context.Context, subscriberI
 
 	var prefix *net.IPNet
 	var epoch uint64
+
+	existed := da.hasAllocation(subscriberID)
 
 	// Use appropriate allocator based on mode
 	if da.mode == PoolModeLease {
@@ -260,10 +268,12 @@ func (da *DistributedAllocator) AllocateWithMAC(ctx context.Context, subscriberI
 	}
 
 	if err := da.saveAllocation(ctx, alloc); err != nil {
-		if da.mode == PoolModeLease {
-			da.epochAllocator.Release(ctx, subscriberID)
-		} else {
-			da.allocator.Release(subscriberID)
+		if !existed {
+			if da.mode == PoolModeLease {
+				da.epochAllocator.Release(ctx, subscriberID)
+			} else {
+				da.allocator.Release(subscriberID)
+			}
 		}
 		return nil, fmt.Errorf("save allocation: %w", err)
 	}
@@ -300,18 +310,31 @@ func (da *DistributedAllocator) Release(ctx context.Context, subscriberID string
 	da.mu.Lock()
 	defer da.mu.Unlock()
 
-	// Release from appropriate allocator
-	if da.mode == PoolModeLease {
-		if err := da.epochAllocator.Release(ctx, subscriberID); err != nil {
-			return err
-		}
-	} else {
-		if err := da.allocator.Release(subscriberID); err != nil {
-			return err
-		}
+	// Session mode: releasing a subscriber without an allocation is an error and touches nothing
+	if da.mode != PoolModeLease && !da.hasAllocation(subscriberID) {
+		return da.allocator.Release(subscriberID)
 	}
 
-	return da.deleteAllocation(ctx, subscriberID)
+	// Remove the record from the store first: if that write fails the allocation stays in
+	// memory as well, so memory and store keep agreeing about this subscriber
+	if err := da.deleteAllocation(ctx, subscriberID); err != nil {
+		return err
+	}
+
+	// Release from appropriate allocator
+	if da.mode == PoolModeLease {
+		return da.epochAllocator.Release(ctx, subscriberID)
+	}
+	return da.allocator.Release(subscriberID)
+}
+
+// hasAllocation reports whether the subscriber currently holds an allocation in memory.
+// Caller must hold da.mu.
+func (da *DistributedAllocator) hasAllocation(subscriberID string) bool {
+	if da.mode == PoolModeLease {
+		return da.epochAllocator.Lookup(subscriberID) != nil
+	}
+	return da.allocator.Lookup(subscriberID) != nil
 }
 
 // Get returns the allocation for a subscriber.
